@@ -503,8 +503,16 @@ def run(tier):
     stmt_oracle_ids = {c["sql"] for c in sviol}
     for c, r in sc["bad"][:5]:
         o = c["out"]
-        rp.violation({"kind": "correspondence", "broken": "StmtParse.v vs parseStatement", "sql": c["sql"],
-                      "impl": {k: o.get(k) for k in ("accepted", "code", "pos", "tree", "panic")}}, "scorr_" + safe_id(c["id"]), no_input=True)
+        why = None
+        if "want" in c:        # a reference statement: the property oracle decides whether the implementation fails on it
+            why = ("panic: " + o["panic"][:200]) if o.get("panic") else ("rejected (%s)" % o.get("code")) if not o["accepted"] else G.tree_diff(c["want"], o.get("tree"))
+        if why:
+            rp.violation({"kind": "stmt", "sql": c["sql"], "prescribed": c["want"], "observed": o.get("tree"), "accepted": o["accepted"],
+                          "code": o.get("code"), "why": why, "also": "Model/StmtParse.v disagrees with parseStatement on this statement"},
+                         "scorr_" + safe_id(c["id"]))
+        else:
+            rp.violation({"kind": "correspondence", "broken": "StmtParse.v vs parseStatement", "sql": c["sql"],
+                          "impl": {k: o.get(k) for k in ("accepted", "code", "pos", "tree", "panic")}}, "scorr_" + safe_id(c["id"]), no_input=True)
     for c in sc["gen_bad"][:3]:
         rp.violation({"kind": "correspondence", "broken": "python generator vs Spec/RefStmt.v", "sql": c["sql"], "term": c["term"][:2000]},
                      "sgen_" + safe_id(c["id"]), no_input=True)
